@@ -177,7 +177,7 @@ PROPS["C19"] = {
 
 PROPS["C09"] = {
     "level": "other",
-    "technique": "Verus contracts on the extracted persist_pending_deletions / load_pending_deletions (what is persisted at the end of a cycle is the complete pending list; after a restart exactly the persisted and the already pending paths are pending, each path once); Verus contracts on the extracted Compactor::garbage_collect (every path handed to the object store's delete was pending, past its grace period and unpinned when checked; the four closures are lifted and verified), Compactor::enforce_retention (only chunks whose newest row is older than the cut-off leave the catalog), BoundedClock::retention_cutoff_nanos and ChunkPinRegistry::is_pinned",
+    "technique": "Verus contracts on the extracted persist_pending_deletions / load_pending_deletions (what is persisted at the end of a cycle is the complete pending list; after a restart exactly the persisted and the already pending paths are pending, each path once); Verus contracts on the extracted Compactor::garbage_collect (every path handed to the object store's delete was pending, past its grace period and unpinned when checked; the four closures are lifted and verified), Compactor::enforce_retention (only chunks whose newest row is older than the cut-off leave the catalog), BoundedClock::retention_cutoff_nanos and ChunkPinRegistry::is_pinned; Verus scope contract on the pinning region of QueryNode::query_for_tenant (the RAII pin guard taken for the selected chunk paths is alive when the statement is planned and executed and is released on every exit: guard directive, mode x)",
     "frame_scans": [{"file": "src/compactor/mod.rs", "patterns": [".delete(", ".delete_chunk("],
                      "allowed_units": ["garbage_collect", "enforce_retention"],
                      "message": "the compactor deletes objects only in garbage_collect and drops catalog entries only in enforce_retention (nothing else is ever deleted)"}],
@@ -228,14 +228,18 @@ PROPS["C15"] = {
 
 PROPS["C18"] = {
     "level": "other",
-    "technique": "Verus contracts on the extracted QueryFilter::apply (merge-point cut on the timestamp column, conjunction of the predicate list, row selection: exactly the wanted rows are delivered, None only if there is none), apply_predicate_to_mask (AND / OR / NOT over masks), apply_comparison and compare_f64 (row mask of `column OP literal` over typed arrow arrays: NULL never matches, every operator is its own symbol, a number literal is compared numerically against both numeric column types); Verus contracts on the extracted TopicFilter::matches (equals the filter's denotation, recursion through And / Or with the any / all closures lifted), FilteredReceiver::recv (delivers the first pending batch that matches, skips exactly the non-matching ones before it) and the WHERE-clause extractor of the live filter (try_column_op_value, try_extract_comparison, conjunction_of, extract_predicates_from_expr over a sqlparser AST shim: for comparisons in either operand order, AND, OR and parentheses the conjunction of the extracted list is equivalent to the WHERE clause)",
-    "verus": ["c18_filters.rs.in", "c18_mask.rs.in"],
+    "technique": "Verus contracts on the extracted QueryFilter::apply (merge-point cut on the timestamp column, conjunction of the predicate list, row selection: exactly the wanted rows are delivered, None only if there is none), apply_predicate_to_mask (AND / OR / NOT over masks), apply_comparison and compare_f64 (row mask of `column OP literal` over typed arrow arrays: NULL never matches, every operator is its own symbol, a number literal is compared numerically against both numeric column types); Verus contracts on the extracted TopicFilter::matches (equals the filter's denotation, recursion through And / Or with the any / all closures lifted), FilteredReceiver::recv (delivers the first pending batch that matches, skips exactly the non-matching ones before it), the publishing side (Ingester::extract_metrics returns exactly the non-null metric names of the batch it is given; the publish step of flush_batches sends one topic batch whose metadata -- metric list and shard -- describes the very batch it carries) and the WHERE-clause extractor of the live filter (try_column_op_value, try_extract_comparison, conjunction_of, extract_predicates_from_expr over a sqlparser AST shim: for comparisons in either operand order, AND, OR and parentheses the conjunction of the extracted list is equivalent to the WHERE clause)",
+    "frame_scans": [{"file": "src/ingester/mod.rs", "patterns": ["topic_broadcast.send(", "TopicBatch {"],
+                     "allowed_units": ["flush_publish"],
+                     "message": "topic batches are built and published only by the flush path under contract (metadata describes the batch that is sent)"}],
+    "verus": ["c18_filters.rs.in", "c18_mask.rs.in", "c18_publish.rs.in"],
     "explanation": "Filter denotation, delivery order and predicate extraction are proved for all filters, metadata, pending sequences and supported WHERE expressions. The IN / NOT IN / BETWEEN arms of the mask walk (closure-based helpers row_matches_value / row_gte_value / row_lte_value, not produced by from_sql for the supported forms) are not under contract; NOT is two-valued as in the code; float equality is the code's epsilon equality, taken as intended; lag-induced drops are excluded by the property.",
     "assumptions": [
         "Iterator::any / all over a slice = exists / forall over its elements (combinator shims over the lifted closures); Vec::contains",
         "sqlparser's Expr has the shapes of the shim enum (BinaryOp{left,op,right}, Nested, Identifier, CompoundIdentifier, Value, other); parse_sql_value is an opaque literal reader; to_lowercase is a function",
         "row-level meaning of `column OP literal` is opaque (cmp_holds); reversed operand order means the flipped operator (taken from the property statement)",
         "the broadcast channel hands out the pending batches in order (ghost queue)",
+        "arrow: column_by_name / as_string_opt / is_null / value read the metric_name column cell by cell; HashSet insert / into_iter().collect() keep each element once; compute_shard_id is the batch's shard (opaque)",
     ],
 }
 
